@@ -123,10 +123,12 @@ PROPS = {
         "level_text": "Unbounded deductive proof (Verus) of the functional contract of every memory primitive the interpreter is built from: "
                       "write_bit sets exactly one bit and leaves every other bit of the buffer unchanged; read/peek return the bit under the cursor; "
                       "copy_from / copy move a bit range between non-overlapping frames for every pair of alignments, changing nothing else; "
-                      "write_u8 / write_bytes are big-endian. This is the property's 'independent of where values sit in memory' at the level "
+                      "write_u8 / write_bytes are big-endian; write_value puts exactly the value's padded bits into the write frame and advances the cursor by the padded width; "
+                      "input() pushes a read frame holding exactly the input's padded bits. This is the property's 'independent of where values sit in memory' at the level "
                       "where it is implemented. PARTIAL: the per-combinator arms of exec_with_tracker and the jets are not under contract.",
-        "level_note": "Not decided: the combinator arms of exec_with_tracker, exec_jet, the C jets themselves, Value<->frame conversion beyond "
-                      "the primitives. Assumed as for C07.",
+        "level_note": "Not decided by proof: the combinator arms of exec_with_tracker (watched: a change leaves the run undecided), exec_jet, the C jets themselves. In the thorough tier and as "
+                      "fallback a BOUNDED native enumeration (c05_machine_semantics_replay: ~700 executions of jet-free programs compared with a direct evaluator of the big-step semantics, "
+                      "debug assertions on) stands in for them; it found defect D8 (zero-width outputs returned as unit), fixed in /repo. Assumed as for C07.",
         "assumptions": ["data buffer shorter than 2^60 bytes"],
         "not_decided": ["per-combinator semantics of exec_with_tracker", "exec_jet and jet functions (C code)"],
         "explanation": "",
